@@ -3,6 +3,7 @@ import re
 
 from ..engine import CALLS, CTORS, atomic_ops, atomic_field_of, callee_fq, path, unwrap
 from ..facts import short
+from ..inline import inline
 from ..flow import TooManyPaths
 from ..guards import field_refs
 from ..rcu import RCU, NODE, ZLN, GUARD, all_paths
@@ -241,6 +242,7 @@ def reclaim(ctx, rid="C05.reclaim"):
     if not fs:
         ctx.broken("rcu_guard::unlock not instantiated")
     for f in fs:
+        f = inline(f)
         try:
             ps = all_paths(f)
         except TooManyPaths:
